@@ -27,6 +27,8 @@ DevAlias == Dev = "AliasDefaults"
 DevLazy == Dev = "LazyUnsync"
 DevCollide == Dev = "CollideEither"
 DevStrip == Dev = "StripInPlace"
+DevRestore == Dev = "StripRestore"
+DevScratch == Dev = "DirtyScratch"
 DevNoMutex == Dev = "NoStepMutex"
 DevEnum == Dev = "EnumEarlyReturn"
 
